@@ -20,12 +20,12 @@ import (
 // scopes: functions whose source is varied for a property in the thorough tier (regular expressions on Type.Method / Func).
 var scopes = map[string][]string{
 	"C01": {`^Failover(Of)?\.`},
-	"C02": {`^Failover(Of)?\.`, `^(shardedMap|shardedMapOf|syncMap)\.(Read|Write)$`},
+	"C02": {`^Failover(Of)?\.`, `^NewFailover(Of)?$`, `^(shardedMap|shardedMapOf|syncMap)\.(Read|Write)$`, `^(ShardedMap|ShardedMapOf|SyncMap)\.Restore$`},
 	"C03": {`^Failover(Of)?\.`, `^NewFailover(Of)?$`, `^WithTTL$`, `^detachedContext\.`, `^Trait(Of)?\.PrepareRead$`, `^(shardedMap|shardedMapOf|syncMap)\.Read$`},
 	"C04": {`^Failover(Of)?\.`, `^detachedContext\.`, `^NewFailover(Of)?$`, `^Trait\.(TTL|NotifyWritten|NotifyDeleted|countOverflow)$`, `^Trait(Of)?\.PrepareRead$`, `^(shardedMap|shardedMapOf|syncMap)\.(Read|Write|Delete|Walk)$`},
 	"C05": {`^Failover(Of)?\.`, `^NewFailover(Of)?$`, `^WithTTL$`, `^(shardedMap|shardedMapOf)\.(Read|Write|Delete)$`, `^(ShardedMap|ShardedMapOf)\.Restore$`},
 	"C06": {`^Failover(Of)?\.`, `^NewFailover(Of)?$`, `^WithTTL$`, `^TTL$`, `^SkipRead$`, `^detachedContext\.`, `^Trait\.TTL$`, `\.Read$`, `^(shardedMap|shardedMapOf|syncMap)\.Write$`},
-	"C07": {`^(shardedMap|shardedMapOf|syncMap)\.(Read|Write|Delete|ExpireAll|DeleteAll|Len|Load|Store|Walk)$`, `^Trait(Of)?\.PrepareRead$`, `^Trait\.(TTL|expireAt)$`, `^WithTTL$`, `^TTL$`, `^SkipRead$`, `^NoOp\.`, `^errExpired(Of)?\.`, `^(ShardedMap|ShardedMapOf|SyncMap)\.Restore$`},
+	"C07": {`^(shardedMap|shardedMapOf|syncMap)\.(Read|Write|Delete|ExpireAll|DeleteAll|Len|Load|Store|Walk)$`, `^Trait(Of)?\.PrepareRead$`, `^Trait\.(TTL|expireAt)$`, `^WithTTL$`, `^TTL$`, `^SkipRead$`, `^NoOp\.`, `^errExpired(Of)?\.`, `^(ShardedMap|ShardedMapOf|SyncMap)\.Restore$`, `^New(ShardedMap|ShardedMapOf)$`, `\.deleteExpired$`, `^tsTime$`},
 	"C08": {`^(shardedMap|shardedMapOf|syncMap|ShardedMap|ShardedMapOf|SyncMap|shardedMapLegacyWalkerOf)\.`},
 	"C09": {`^(shardedMap|shardedMapOf|syncMap)\.(Read|Write|Delete|Load|Store)$`, `^(ShardedMap|ShardedMapOf|SyncMap)\.Restore$`, `^Failover(Of)?\.`, `^InvalidationIndex\.(Add|invalidateByLabels)`, `^Trait(Of)?\.Notify`},
 	"C10": {`^Trait\.(TTL|expireAt|init)$`, `^NewTrait$`, `^ts$`, `^tsTime$`, `^WithTTL$`, `^TTL$`, `^Trait(Of)?\.PrepareRead$`, `\.(ExpireAt|ExpiredAt)$`, `\.Write$`, `^shardedMapLegacyWalkerOf\.Walk$`},
